@@ -71,6 +71,9 @@ def start_point(g, typ, kind, m, cls):
     c, _ = system(kind)
     if cls == "physical":
         return rand_physical(g, typ, kind, m)
+    if cls == "almost":
+        # physical up to a ppm-level (or smaller) mis-normalisation / perturbation
+        return gen_param(g, typ, kind, m, 1.0, "almost")
     if cls == "lowpurity":
         # noisy linear estimate of a rank-deficient mixed state: trace one, purity <= 1/2, slightly non-PSD
         return gen_param(g, typ, kind, m, 1.0, "lowpurity")
@@ -478,7 +481,9 @@ def oracle(ctx, volume=1):
     # Gell-Mann -> rotated 2-qubit basis; qubit Pauli -> rotated qubit): per-system HS <-> Choi tables must not leak
     extra += [("Gate", "qq", "physical", False, 1e-10), ("Gate", "g4", "physical", False, 1e-10), ("Gate", "g4", "near", True, 1e-8),
               ("Gate", "qqr", "near", False, 1e-8), ("Gate", "q", "near", False, 1e-10), ("Gate", "qr", "near", True, 1e-10),
-              ("MProcess", "qr", "near", False, 1e-8), ("MProcess", "qr", "physical", True, 1e-12)]
+              ("MProcess", "qr", "near", False, 1e-8), ("MProcess", "qr", "physical", True, 1e-12),
+              ("Povm", "q", "almost", False, 1e-14), ("State", "q", "almost", False, 1e-14), ("Povm", "t", "almost", True, 1e-13),
+              ("MProcess", "q", "almost", False, 1e-14)]
     for i, typ in enumerate(TYPES):
         check_maxiter(ctx, g2, typ, "q", 2 if typ in ("Povm", "MProcess") else 1, bool(i % 2), ORDERS[i % 2])
     for rep in range(volume):
